@@ -100,6 +100,7 @@ def gen_consts(v):
         ('E131_STREAM_TERMINATED_MASK', '%sE131Header::STREAM_TERMINATED_MASK' % ac),
         ('E131_MAX_PRIORITY', '%sDMPE131Inflator::MAX_E131_PRIORITY' % ac),
         ('E131_MAX_MERGE_SOURCES', '%sDMPE131Inflator::MAX_MERGE_SOURCES' % ac),
+        ('E131_SEQ_DIFF_NEG', '-%sDMPE131Inflator::SEQUENCE_DIFF_THRESHOLD' % ac),
         ('DMP_HEADER_SIZE', '%sDMPHeader::DMP_HEADER_SIZE' % ac),
         ('DMP_TWO_BYTES', '%sTWO_BYTES' % ac), ('DMP_RANGE_EQUAL', '%sRANGE_EQUAL' % ac),
         ('DMP_NON_RANGE', '%sNON_RANGE' % ac), ('DMP_RES_BYTES', '%sRES_BYTES' % ac),
@@ -121,7 +122,8 @@ RULE = ('frames of every length 0-512 x {random, all-equal, ramp, alternating, n
         'encodings + random bytes x start channels around 0/511/512 x receiver buffer {unallocated, short, full}; '
         'per protocol (ShowNet, SandNet, ESP Net, Pathport, Art-Net, E1.31 rev 3 and rev 2) real-node send->receive '
         'over the address space (universe/net/sub-net/port, priorities, sequence numbers incl. wrap, source names), '
-        'same and different receiver address; transmit DmxBuffers carry history (an earlier, longer frame left in the '
+        'same and different receiver address; E1.31 stream lifecycles on one receiver (n in 1..300 frames incl. 19/20/21 '
+        'and sequence wrap, TerminateStream, m frames of a new stream, receiver buffer compared after every frame); transmit DmxBuffers carry history (an earlier, longer frame left in the '
         '512-byte block; explicit dirty-block cases for Encode and ShowNet with short frames); Art-Net sender and receiver '
         'as separate nodes with 0/1/4 input ports and the address setters called in every order before/after Start(); '
         'non-trivial = complete encode / whole decode / datagram handled; '
@@ -139,7 +141,8 @@ TRUSTED = ['modelled rather than verified: RunLengthEncoder::Encode/Decode, DmxB
            'SocketReady/HandleData(raw), PathportNode::SendDMX/SocketReady/HandleDmxData, ArtNetNodeImpl::SendDMX/'
            'HandlePacket/HandleDataPacket/UpdatePortFromSource(first source), E131Node::SendDMXWithSequenceOffset + '
            'PDU/RootPDU/E131PDU/DMPPDU Pack + PreamblePacker, IncomingUDPTransport::Receive + BaseInflator walk + '
-           'Root/E131/E131Rev2/DMP header decoders + DMPE131Inflator::HandlePDUData/TrackSourceIfRequired(first source); '
+           'Root/E131/E131Rev2/DMP header decoders + DMPE131Inflator::HandlePDUData/TrackSourceIfRequired (one sender CID: '
+           'first source, sequence window, termination), E131Node::TerminateStream/SendStreamTerminated; '
            'wire constants and struct offsets regenerated into Gen.v',
            'E1.31 receive model covers datagrams with one PDU per block (what OLA sends); blocks with several PDUs and '
            'Art-Net opcodes other than ArtDmx are reported as unmodelled, never fed by the generator']
@@ -150,7 +153,8 @@ LEVEL_TEXT = ('Coq theorems, for all frames of 1-512 slots and all addresses, ab
               'receive code of every DMX-over-network protocol OLA both sends and receives: c07_P_roundtrip for ShowNet '
               '(RLE path and raw-when-lengths-collide), SandNet, ESP Net, Pathport, Art-Net (even-length padding) and '
               'E1.31 revisions 3 and 2: receive(build f) = the property\'s expected buffer over any old receiver '
-              'buffer; plus RunLengthEncoder lossless / bounded / false-iff-truncated / count bytes in 1..127 for all '
+              'buffer; c07_e131_stream_roundtrip: with a receiver that keeps its sequence/priority tracking state, every '
+              'frame of a stream of any length and of a stream restarted after TerminateStream is delivered; plus RunLengthEncoder lossless / bounded / false-iff-truncated / count bytes in 1..127 for all '
               'frames and capacities.  The models are tied to the C++ (real node objects, ASan/UBSan, datagram bytes '
               'compared) by a differential correspondence check; receivers are modelled with one handler and no '
               'previously tracked source.')
@@ -362,6 +366,15 @@ def gen_cases(rng, tier):
                                                      rng.choice([100, 100, 100, 0, 1, 199, 200, 201, 255]),
                                                      1 if rng.random() < 0.1 else 0,
                                                      rng.choice(['-', hx(b'OLA Server'), hx(b'x' * 31), hx(b'y' * 32), hx(b'z' * 70)]), hx(f))
+    # ---- E1.31 stream lifecycle on ONE receiver: n frames, TerminateStream, m frames of a new stream
+    ns = [1, 2, 3, 19, 20, 21, 22, 30, 255, 256, 257] if quick else list(range(1, 40)) + [127, 128, 129, 254, 255, 256, 257, 300]
+    ms = [1, 2, 19, 20, 21, 25] if quick else [1, 2, 3, 19, 20, 21, 22, 30, 260]
+    for n in ns:
+        for m in (rng.sample(ms, 2) if quick else ms):
+            fa = [rng.randrange(256) for _ in range(rng.choice([1, 2, 5, 24, 512]))]
+            fb = [rng.randrange(256) for _ in range(rng.choice([1, 3, 5, 24, 511]))]
+            yield 'e1s %d %d %d %s %d %s' % (rng.choice([1, 2, 63999, rng.randrange(1, 65535)]),
+                                             rng.choice([100, 100, 0, 1, 200]), n, hx(fa), m, hx(fb))
     if not quick:
         # all addresses of the small address spaces
         f = [1, 2, 3, 3, 3, 9]
@@ -396,4 +409,6 @@ def nontrivial(payload, md):
         return md.get('ret') == '1' and md.get('size') not in (None, '0')
     if op == 'dec':
         return md.get('dret') == '1' and md.get('dbuf') not in (None, 'none')
+    if op == 'e1s':
+        return md.get('spec') == '1'
     return md.get('handled') == '1'
